@@ -1,5 +1,5 @@
 """Configuration of ./check C19: harness streams (name, n_quick, n_thorough), rule text, theorem names; MANIFEST texts."""
-PROP = {'streams': [('c19', 2000, 100000), ('c19h', 500, 20000), ('c19cli', 200, 5000)],
+PROP = {'streams': [('c19', 2000, 100000), ('c19h', 500, 20000), ('c19cli', 200, 5000), ('c19p', 1500, 50000)],
  'cli': True,
  'definitional': False,
  'rule': 'c19: stateless ffi::is_authorized (typed, _json, _json_str) vs Authorizer::is_authorized on API-parsed inputs, per case validate_request '
@@ -12,7 +12,16 @@ PROP = {'streams': [('c19', 2000, 100000), ('c19h', 500, 20000), ('c19cli', 200,
          'erroring ids). c19cli: the cedar binary built from /repo: authorize (cedar|json policies, links file, schema cedar|json, '
          'request-json|flags, request-validation on/off, -v reasons), validate, check-parse, translate-policy, translate-schema, format: exit status '
          '+ printed decision/output vs API. non-trivial = successful authorizations (c19, distinct by policies+context+flag), histories with a '
-         'stateful read after a re-registration or a failed preparse over an existing entry (c19h), every CLI run (c19cli)',
+         'stateful read after a re-registration or a failed preparse over an existing entry (c19h), every CLI run (c19cli). '
+         'c19p (harness/src/c19_pols.rs): FFI policy sets as JSON through serde + the real ffi::PolicySet::parse vs the Lean mirror `assemble` '
+         '(op ffipols): staticPolicies absent | concatenated text of 0-3 statements (15% templates, damaged text) | array | id map of 0-3 documents, '
+         'templates map 0-3, 0-3 links; documents = Cedar text | EST JSON of a static policy or a template in either position, garbage text / JSON, '
+         'two policies in one document; ids from a pool of 6 incl. the default ids policy0 / JSON policy (collisions between static ids, template ids, '
+         'link ids) + fresh link ids; link values fitting / missing / extra / not an entity uid; dangling and static template ids; 40% of the cases '
+         'well-formed throughout. impl = (ok listing of the resulting PolicySet, as the C08 pset op) | (errs sorted classes of the miette reports by '
+         'the message prefixes of utils.rs + PolicySetError variant); request = the parsers\' verdicts on the same documents. Implementation-only: the '
+         'parsers assign the id they are given, Template::parse refuses slot-less policies. non-trivial (c19p) = distinct requests with >= 2 '
+         'documents + links',
  'theorems': ['cache_refines_latest',
               'every_reply_refines_latest',
               'failed_preparse_changes_nothing',
@@ -49,8 +58,8 @@ TEXT = ("Lean theorems over the mirror of the FFI's stateful layer (two name->pa
  'the C08 model of cedar_policy::PolicySet, and assemble_eq_api_history / assemble_ok_iff prove it equals the explicit API history add* ++ '
  'add_template* ++ link* from the empty set with the assigned ids (policy{n} by position | default id | map key), succeeding iff every document parses '
  'and every call succeeds, with the exact error list otherwise; assemble_inv (C08 invariants), assemble_ids / assemble_ids_collision (ids exactly the '
- 'assigned ones, every collision reported), assemble_authorize. That the FFI and the CLI assemble their OTHER inputs as the Rust API does (decision, '
+ 'assigned ones, every collision reported), assemble_authorize; the assembly model is tied to the real ffi::PolicySet::parse on every run by the ffipols lines (stream c19p: 1500 quick / 50000 thorough generated FFI policy sets in every shape, reply = resulting set listing or sorted error classes, diffed against the model run on the real parsers\' verdicts). That the FFI and the CLI assemble their OTHER inputs as the Rust API does (decision, '
  'determining policies, erroring ids, validation error ids, converted documents, in every input shape) is not a model theorem: it is checked by the '
  'differential run only (ffi vs API, stateful vs stateless, cedar binary vs API), and cache histories are diffed against the model.',
  'proof covers the cache/lookup refinement, the exit-code table and policy-set assembly (parsers trusted); the rest of input assembly vs the API is sampled differential testing '
- '(harness/src/c19.rs); cedar-wasm glue not executable here; CLI built with default features')
+ '(harness/src/c19.rs); policy-set assembly model vs ffi::PolicySet::parse diffed line by line (harness/src/c19_pols.rs); cedar-wasm glue not executable here; CLI built with default features')
